@@ -208,6 +208,12 @@ func (fw *FileWriter) WriteEntry(entry Entry) error {
 		return ErrFileClosed
 	}
 
+	// An entry the format cannot hold must not reach the file: it would be written with a
+	// wrapped length field and make the whole file unreadable.
+	if err := entry.Validate(); err != nil {
+		return err
+	}
+
 	shouldFlush := fw.buffer.Add(entry)
 	if shouldFlush {
 		return fw.flushLocked()
@@ -223,6 +229,12 @@ func (fw *FileWriter) WriteEntries(entries []Entry) error {
 
 	if fw.closed {
 		return ErrFileClosed
+	}
+
+	for _, entry := range entries {
+		if err := entry.Validate(); err != nil {
+			return err
+		}
 	}
 
 	for _, entry := range entries {
